@@ -2,7 +2,8 @@
      include/bitserializer/conversion_detail/convert_chrono.h   (SafeDurationCast, SafeAddDuration x2,
         ParseSecondFractions, PrintSecondsFractions, PrintDurationPart, ParseIsoUtc, PrintIsoUtc, the
         To(...) overloads for time_point / duration / tm / CRawTime)
-     include/bitserializer/serialization_detail/bin_timestamp.h (the four CBinTimestamp conversions)
+     include/bitserializer/serialization_detail/bin_timestamp.h (the four CBinTimestamp conversions with
+        NormalizeNegativeFraction / SplitTowardsZero)
    and of the libstdc++ <chrono> pieces they instantiate (duration_cast, floor, round, the duration
    operators with their common_type rules).
 
@@ -616,6 +617,22 @@ Definition dur_parse (P : prec) (R : ity) (l : list N) : outcome Z := dur_parse_
 
 (* ------------------------------------------------------------------ CBinTimestamp conversions *)
 
+(* NormalizeNegativeFraction(CBinTimestamp&): floor seconds and a fraction in 0..999999999 *)
+Definition normalize_negative_fraction (sec ns : Z) : outcome (Z * Z) :=
+  if ns <? 0 then
+    s' <- arith I64 (sec - 1) ;;                                 (* --timestamp.Seconds *)
+    n' <- arith I32 (ns + 1000000000) ;;                         (* timestamp.Nanoseconds += 1000000000 *)
+    Ok (s', cast I32 n')
+  else Ok (sec, ns).
+
+(* SplitTowardsZero(const CBinTimestamp&): both parts with the same sign *)
+Definition split_towards_zero (sec ns : Z) : outcome (Z * Z) :=
+  if (sec <? 0) && (0 <? ns) then
+    s' <- arith I64 (sec + 1) ;;
+    n' <- arith I32 (ns - 1000000000) ;;
+    Ok (s', cast I32 n')
+  else Ok (sec, ns).
+
 (* To(time_point / duration, CBinTimestamp&): the two overloads compute the same expressions *)
 Definition ts_to (P : prec) (R : ity) (c : Z) : outcome (Z * Z) :=
   let D := pty P R in
@@ -624,21 +641,25 @@ Definition ts_to (P : prec) (R : ity) (c : Z) : outcome (Z * Z) :=
     back <- dcast SecT D sec ;;                                  (* duration_cast<TDuration>(seconds(Seconds)) *)
     left <- dsub D c D back ;;
     ns <- dcast D NsT left ;;
-    Ok (sec, cast I32 ns)
+    normalize_negative_fraction sec (cast I32 ns)
   else
     sec <- safe_cast D SecT c ;; Ok (sec, 0).
 
 (* To(CBinTimestamp, time_point&) *)
-Definition ts_from_tp (P : prec) (R : ity) (sec nsec : Z) : outcome Z :=
+Definition ts_from_tp (P : prec) (R : ity) (sec0 nsec0 : Z) : outcome Z :=
   let D := pty P R in
+  sn <- split_towards_zero sec0 nsec0 ;;
+  let '(sec, nsec) := sn in
   c0 <- safe_cast SecT D sec ;;
   if nsec =? 0 then Ok c0
   else if above_second P then Err OutOfRange
   else r <- dround NsT D nsec ;; safe_add_tp D c0 D r.
 
 (* To(CBinTimestamp, duration&) *)
-Definition ts_from_dur (P : prec) (R : ity) (sec nsec : Z) : outcome Z :=
+Definition ts_from_dur (P : prec) (R : ity) (sec0 nsec0 : Z) : outcome Z :=
   let D := pty P R in
+  sn <- split_towards_zero sec0 nsec0 ;;
+  let '(sec, nsec) := sn in
   c0 <- safe_cast SecT D sec ;;
   if nsec =? 0 then Ok c0
   else if above_second P then Err OutOfRange
